@@ -12,7 +12,10 @@ def run(ctx, audit):
     ns, per = (SHARDS_THOROUGH, PER_SHARD_THOROUGH) if ctx.thorough else (SHARDS_QUICK, PER_SHARD_QUICK)
     common.run_sharded(ctx, "gfi_props", "shard_c01", [(i, per, ns) for i in range(ns)])
     extra(ctx)
-    return {"rule": RULE}
+    out = {"rule": RULE}
+    if ctx.thorough:
+        out["compat_selftest"] = common.compat_selftest()
+    return out
 
 
 def extra(ctx):
